@@ -1,6 +1,11 @@
 (* Extraction of the C13 model and specification to OCaml.
-   ExtrOcamlBasic only; N / positive / nat stay the extracted inductive types. *)
-From EP Require Import Base.Bytes TcpOpt.Spec TcpOpt.Model.
+   ExtrOcamlBasic only; N / positive / nat stay the extracted inductive types.
+   The header level functions (TcpOpt/Header.v) sit on top of the C08 model
+   Roundtrip/Tcp.v; both have a record for struct TcpOptions and a result type,
+   the monolithic extraction renames the second occurrence of a clashing name
+   (see the comment at the top of ocaml/run_c13.ml). *)
+From EP Require Import Base.Bytes TcpOpt.Spec TcpOpt.Model TcpOpt.Header.
+From EP Require Roundtrip.Common Roundtrip.Tcp.
 From Coq Require Import Extraction ExtrOcamlBasic.
 Extraction Language OCaml.
 Extraction "m_c13.ml"
@@ -8,4 +13,10 @@ Extraction "m_c13.ml"
   next iterate next_n
   try_from_elements try_from_slice as_slice elements_iterate options_len data_offset
   required_len to_opt compact
-  wire wire_list pad4 padding spec_next spec_decode.
+  wire wire_list pad4 padding spec_next spec_decode
+  (* header level *)
+  to_c08 of_c08 set_options set_options_raw hdr_header_len hdr_data_offset
+  hdr_options_area hdr_options_iterate
+  hs_data_offset hs_options hs_options_iterate
+  ts_from_slice ts_header_len ts_header_slice ts_payload ts_data_offset ts_options ts_options_iterate
+  Tcp.to_bytes Tcp.slice_from_slice Tcp.to_header Tcp.from_slice Tcp.read Tcp.tcp_eqb Tcp.wf_tcp.
